@@ -213,6 +213,15 @@ func cmdCheck(args []string) int {
 		if st.Tags != "" {
 			bargs = append(bargs, "-tags", st.Tags)
 		}
+		cover := os.Getenv("VERIF_COVER") != ""
+		if cover {
+			// measurement aid (bin/covreport): which regclient statements the check executes at all
+			lc := exec.Command(goBin, "list", "./...")
+			lc.Dir = repoDir
+			lc.Env = goEnv(work)
+			lo, _ := lc.Output()
+			bargs = append(bargs, "-cover", "-covermode=set", "-coverpkg="+strings.Join(strings.Fields(string(lo)), ","))
+		}
 		bargs = append(bargs, st.Pkg)
 		bc := exec.Command(goBin, bargs...)
 		bc.Dir = repoDir
@@ -259,6 +268,9 @@ func cmdCheck(args []string) int {
 				ctx, cancel := context.WithTimeout(context.Background(), time.Duration(budget*4+180)*time.Second)
 				defer cancel()
 				c := exec.CommandContext(ctx, bin, "-test.run", st.Run, "-test.timeout", "0", "-test.count", "1")
+				if cover {
+					c.Args = append(c.Args, "-test.coverprofile="+filepath.Join(work, fmt.Sprintf("cover-%s-%d.out", st.Name, i)))
+				}
 				c.Dir = rdir
 				gmp := st.GoMaxProcs
 				env := append(goEnv(work),
